@@ -7,9 +7,12 @@ import (
 	"math"
 	"math/rand/v2"
 	"os"
+	"os/signal"
 	"path/filepath"
 	"runtime"
+	"sync"
 	"sync/atomic"
+	"syscall"
 
 	gw "github.com/go-graphite/go-whisper"
 	wt "github.com/hnakamur/whispertool"
@@ -127,6 +130,36 @@ func runC05(e *Env, c *LibCase) {
 			}
 			dirtyPages[int64(i)] = true
 		case "sync", "reopen":
+			if op.FailAt > 0 && op.Op == "sync" {
+				// F7: writes beyond a seeded offset fail while this Sync runs
+				serr := withWriteLimit(op.FailAt-1, func() error { return db.Sync() })
+				e.Fault("F7.write-failure-during-sync")
+				if serr != nil {
+					// a loud failure claims nothing; whatever reached the disk is the
+					// new baseline, the recorded view is void
+					e.Probe("sync-reports-the-failed-write")
+					durable = readFile(path)
+					view = nil
+					break
+				}
+				live, lerr := c05ViewOf(db, archs, now)
+				obs, oerr := wt.Open(path, wt.WithoutFlock())
+				if lerr != nil || oerr != nil {
+					e.Violate("C05.sync-success-after-failed-write", "Sync reported success although writes at offsets >= %d failed (file of %d bytes), and the file cannot be read back: %v %v", op.FailAt-1, fileLen, lerr, oerr)
+					return
+				}
+				ov, verr := c05ViewOf(obs, archs, now)
+				obs.Close()
+				if verr != nil || live.diff(ov) != "" {
+					d := ""
+					if verr == nil {
+						d = live.diff(ov)
+					}
+					e.Violate("C05.sync-success-after-failed-write", "Sync reported success although writes at offsets >= %d failed (file of %d bytes): another handle does not see the live handle's state: %v %s", op.FailAt-1, fileLen, verr, d)
+					return
+				}
+				e.Probe("failed-writes-did-not-matter-to-this-sync")
+			}
 			if err := db.Sync(); err != nil {
 				e.Violate("C05.sync", "Sync failed: %v", err)
 				return
@@ -279,6 +312,12 @@ func runC05(e *Env, c *LibCase) {
 					}
 				}
 			case "sync":
+				if op.FailAt > 0 && withWriteLimit(op.FailAt-1, func() error { return fdb.Sync() }) != nil {
+					// as in the main history: a Sync that reported the failed
+					// write is not followed by another one
+					fsynced = true
+					continue
+				}
 				fdb.Sync()
 				fsynced = true
 			case "reopen":
@@ -420,6 +459,10 @@ func c05Replay(e *Env, c *LibCase, fp string, k int) (*wt.Whisper, bool) {
 				}
 			}
 		case "sync":
+			if op.FailAt > 0 && withWriteLimit(op.FailAt-1, func() error { return fdb.Sync() }) != nil {
+				fsynced = true
+				continue
+			}
 			fdb.Sync()
 			fsynced = true
 		case "reopen":
@@ -793,3 +836,23 @@ func collectGarbage() {
 		}
 	}
 }
+
+// withWriteLimit runs f while the process may not write at file offsets >=
+// limit (RLIMIT_FSIZE: the write fails with EFBIG, a write crossing the
+// offset is cut short): the simulated disk is full beyond that offset.
+func withWriteLimit(limit int64, f func() error) error {
+	sigOnce.Do(func() { signal.Ignore(syscall.SIGXFSZ) })
+	var old syscall.Rlimit
+	if err := syscall.Getrlimit(syscall.RLIMIT_FSIZE, &old); err != nil {
+		return f()
+	}
+	nl := old
+	nl.Cur = uint64(limit)
+	if err := syscall.Setrlimit(syscall.RLIMIT_FSIZE, &nl); err != nil {
+		return f()
+	}
+	defer syscall.Setrlimit(syscall.RLIMIT_FSIZE, &old)
+	return f()
+}
+
+var sigOnce sync.Once
